@@ -1,0 +1,11 @@
+//go:build verif
+
+// Contracts for the verification machinery in /verif (govc). This file is only compiled with -tags verif;
+// it adds no behaviour to the package.
+package errors
+
+// New allocates the error value; it writes nothing that exists before the call (debug.Stack is a library call whose
+// result is only copied into the fresh value).
+//@ func New
+//@   ensures nonnil: result != nil
+//@   assigns nothing
